@@ -257,7 +257,8 @@ def r10_12(ctx):
         if k == "insert":
             args = pex.call_args(bb)
             keye = strip_refs(args[1])
-            ok_key = keye[0] == "field" and keye[2] == "zobrist_key" and pb.local_ty(root_local(keye) or 0) == "board::BoardState"
+            ok_key = keye[0] == "field" and keye[2] == "zobrist_key" and \
+                pb.local_ty(root_local(keye) or 0) in ("board::BoardState", "&board::BoardState", "&mut board::BoardState")
             ok_val = args[2] == ("const", 1)
             if ok_key and ok_val:
                 ins.append(bb)
@@ -265,7 +266,7 @@ def r10_12(ctx):
             # on a table that is empty at this point (cleared, nothing recorded since) `add(board)` stores
             # 0 + 1 = 1 (R10.4): the same record as insert(board.zobrist_key, 1)
             args = pex.call_args(bb)
-            ok_board = pb.local_ty(root_local(strip_refs(args[1])) or 0) == "board::BoardState"
+            ok_board = pb.local_ty(root_local(strip_refs(args[1])) or 0) in ("board::BoardState", "&board::BoardState", "&mut board::BoardState")
             others = [p for p in populate if p != bb]
             if inner_clears:
                 empty = (0 in inner_clears or not pb.reaches(0, bb, removed_nodes=inner_clears)) and \
